@@ -11,6 +11,10 @@ import ast
 from .srcmodel import Unknown, FuncRef, Regex, func_params, unparse
 
 
+import re as _re_mod
+_re_Match = _re_mod.Match
+
+
 class Native(object):
     """a recorder / helper callable injected by a rule into the interpreted environment"""
 
@@ -204,6 +208,10 @@ class _Interp(object):
             return out
         if isinstance(n, ast.Attribute):
             raise Unknown("attribute %s" % n.attr)
+        if isinstance(n, ast.Name) and n.id not in self.env:
+            ref = self.repo.resolve(self.module, n.id)
+            if ref is not None and ref.node is not None and isinstance(ref.node, (ast.FunctionDef, ast.Lambda)):
+                return ref
         # constants / module-level names
         return self.repo.ceval(self.module, n, self.env)
 
@@ -260,10 +268,17 @@ class _Interp(object):
                     import re as _re
                     try:
                         rx = _re.compile(base.pattern, base.flags)
+                        if f.attr == "sub" and args and isinstance(args[0], FuncRef):
+                            cb = args[0]
+                            args = [lambda mo, cb=cb: run_function(self.repo, cb, [mo], None, self.depth + 1)] + list(args[1:])
                         r = getattr(rx, f.attr)(*args)
+                    except Unknown:
+                        raise
                     except Exception as e:
                         raise Unknown("regex op raised %s" % e)
                     return r if f.attr == "sub" else (r is not None)
+                if isinstance(base, _re_Match) and f.attr in ("group", "start", "end", "span"):
+                    return getattr(base, f.attr)(*args)
                 raise Unknown("method %s on %s" % (f.attr, type(base).__name__))
             if dn == "os.path.splitext":
                 import posixpath
